@@ -39,7 +39,8 @@ CONSTANTS
     DefaultRP,      \* TaskMaster.DefaultRetentionPolicy
     MaxWrites,      \* bound on written points
     MaxLifecycle,   \* bound on StartTask/StopTask/DeleteTask calls
-    Dedup           \* TRUE: forkPoint hands a point to a task edge at most once (the code after the fix)
+    Dedup,          \* TRUE: forkPoint hands a point to a task edge at most once (the code after the fix)
+    FailCleansUp    \* TRUE: a StartTask that fails after newFork removes the fork again (the code after the fix)
 
 VARIABLES
     def,            \* [tasks -> Shapes], fixed during a behaviour
@@ -127,7 +128,7 @@ RECURSIVE DrainInto(_, _, _)
 DrainInto(dl, t, q) == IF q = <<>> THEN dl ELSE DrainInto(DeliverOne(dl, t, Head(q)), t, Tail(q))
 
 Consume(t) ==
-    /\ taskEdge[t] # <<>>
+    /\ t \in executing /\ taskEdge[t] # <<>>
     /\ delivered' = [delivered EXCEPT ![t] = DeliverOne(@, t, Head(taskEdge[t]))]
     /\ taskEdge' = [taskEdge EXCEPT ![t] = Tail(@)]
     /\ UNCHANGED <<def, executing, forks, taskToForkKeys, ingest, written, status, nl>>
@@ -156,6 +157,19 @@ StartTask(t) ==
     /\ nl' = nl + 1
     /\ UNCHANGED <<def, ingest, delivered, written>>
 
+(* StartTask returning an error AFTER newFork (the task's snapshot cannot be      *)
+(* loaded): the task is not executing.  Code as found: the fork stays registered *)
+(* with an edge nobody reads (FailCleansUp = FALSE); repaired: delFork undoes it *)
+(* under the same lock, so nothing observable happens.                           *)
+StartTaskFail(t) ==
+    /\ t \notin executing /\ nl < MaxLifecycle /\ nl' = nl + 1
+    /\ IF FailCleansUp
+       THEN UNCHANGED <<forks, taskToForkKeys, taskEdge>>
+       ELSE /\ taskToForkKeys' = [taskToForkKeys EXCEPT ![t] = @ \o ForkKeysOf(def[t])]
+            /\ forks' = forks \cup { <<k, t>> : k \in Range(ForkKeysOf(def[t])) }
+            /\ taskEdge' = [taskEdge EXCEPT ![t] = <<>>]
+    /\ UNCHANGED <<def, executing, ingest, delivered, written, status>>
+
 (* stopTask: a no-op (still returning nil) when t is not executing *)
 DoStop(t) ==
     /\ nl < MaxLifecycle /\ nl' = nl + 1
@@ -171,7 +185,7 @@ DoStop(t) ==
 StopTask(t) == DoStop(t)
 DeleteTask(t) == DoStop(t)      \* stopTask + delete hooks (none for these pipelines)
 
-Lifecycle(t) == StartTask(t) \/ StopTask(t) \/ DeleteTask(t)
+Lifecycle(t) == StartTask(t) \/ StartTaskFail(t) \/ StopTask(t) \/ DeleteTask(t)
 
 Next ==
     \/ \E b \in Batches : WriteBatch(b)
@@ -219,6 +233,10 @@ TableConsistent ==
     \A t \in T :
         /\ RoutesOf(forks, t) = (IF t \in executing THEN Range(ForkKeysOf(def[t])) ELSE {})
         /\ Range(taskToForkKeys[t]) = RoutesOf(forks, t)
+
+(* nothing is handed to a task that is not executing (its edge has no reader:   *)
+(* after 1000 points forkPoint would block for ever, holding tm.mu.RLock)        *)
+NoOrphanDelivery == \A t \in T : t \notin executing => taskEdge[t] = <<>>
 
 (* a lifecycle call on u changes nothing that belongs to another task t        *)
 NonInterferenceStep ==
